@@ -157,7 +157,25 @@ async fn run_scenario(line: &str) -> String {
             "spawn" => {
                 let a = idx(t[1]);
                 let kind = idx(t[2]);
-                let sup = if t[3] == "-" { None } else { Some(cell_of(&slots, idx(t[3])).expect("supervisor cell")) };
+                // the supervisor's cell is unknown when its own spawn failed before pre_start ran: the
+                // linked spawn cannot even be issued; report it as a failed spawn of an actor without cell
+                let sup = if t[3] == "-" {
+                    None
+                } else {
+                    match cell_of(&slots, idx(t[3])) {
+                        Some(c) => Some(c),
+                        None => {
+                            slots[a] = Some(Arc::new(Slot {
+                                cell: Mutex::new(None),
+                                gates: [Gate::new(true), Gate::new(true), Gate::new(true), Gate::new(true)],
+                                res: Mutex::new(Some(false)),
+                                starter: Mutex::new(None),
+                                actor_task: Mutex::new(None),
+                            }));
+                            continue;
+                        }
+                    }
+                };
                 let slot = Arc::new(Slot {
                     cell: Mutex::new(None),
                     gates: [
@@ -194,7 +212,13 @@ async fn run_scenario(line: &str) -> String {
                             Some(p) => ractor::ActorRuntime::<H>::spawn_linked_instant(None, H, slot.clone(), p),
                             None => ractor::ActorRuntime::<H>::spawn_instant(None, H, slot.clone()),
                         };
-                        let (aref, outer) = r.expect("instant spawn of an unnamed actor cannot fail");
+                        let (aref, outer) = match r {
+                            Ok(x) => x,
+                            Err(_) => {
+                                *slot.res.lock().unwrap() = Some(false);
+                                continue;
+                            }
+                        };
                         *slot.cell.lock().unwrap() = Some(aref.get_cell());
                         *slot.starter.lock().unwrap() = Some(outer.abort_handle());
                         let s2 = slot.clone();
@@ -293,15 +317,32 @@ async fn run_scenario(line: &str) -> String {
     coq_list(&snaps)
 }
 
+static LAST_PANIC: Mutex<String> = Mutex::new(String::new());
+
 fn main() {
-    std::panic::set_hook(Box::new(|_| {}));
+    // panics of scripted handlers are expected and silent; remember the last message so that a panic of
+    // the harness itself is reported as an observation instead of aborting the process
+    std::panic::set_hook(Box::new(|info| {
+        let msg = info.to_string().replace(['"', '\n'], " ");
+        if let Ok(mut g) = LAST_PANIC.lock() {
+            *g = msg;
+        }
+    }));
     for line in stdin_lines() {
-        let rt = tokio::runtime::Builder::new_current_thread()
-            .enable_time()
-            .start_paused(true)
-            .build()
-            .expect("runtime");
-        let out = rt.block_on(run_scenario(&line));
-        println!("{out}");
+        let r = std::panic::catch_unwind(std::panic::AssertUnwindSafe(|| {
+            let rt = tokio::runtime::Builder::new_current_thread()
+                .enable_time()
+                .start_paused(true)
+                .build()
+                .expect("runtime");
+            rt.block_on(run_scenario(&line))
+        }));
+        match r {
+            Ok(out) => println!("{out}"),
+            Err(_) => {
+                let msg = LAST_PANIC.lock().map(|g| g.clone()).unwrap_or_default();
+                println!("[(HarnessPanic \"{}\", [])]", msg.chars().take(200).collect::<String>());
+            }
+        }
     }
 }
